@@ -143,15 +143,17 @@ const (
 
 type c36world struct {
 	n       int
-	obj     [c36maxN]*stream
-	status  [c36maxN]byte
+	obj     []*stream
+	status  []byte
 	streams map[uint32]*stream
 	sc      *serverConn
 	pf      PriorityFrame
+	mark    []int32 // cyclicFast
+	stamp   int32
 }
 
 func c36newWorld(n int) *c36world {
-	w := &c36world{n: n, streams: make(map[uint32]*stream)}
+	w := &c36world{n: n, streams: make(map[uint32]*stream), obj: make([]*stream, n), status: make([]byte, n), mark: make([]int32, n)}
 	for i := 0; i < n; i++ {
 		w.obj[i] = &stream{id: c36id(i)}
 	}
@@ -222,6 +224,53 @@ func (w *c36world) cyclic() int {
 		}
 	}
 	return -1
+}
+
+// c36cyclicFast is the same invariant in O(n) for the deep trees: every ancestor walk stops at
+// nil, at a stream already known to reach nil, or (cycle) at a stream entered during this very
+// walk; no walk can take more than n+1 steps. Returns the index of a stream on a cycle or -1.
+func c36cyclicFast(obj []*stream, mark []int32, stamp *int32) int {
+	base := *stamp
+	for i := range obj {
+		if obj[i] == nil || mark[i] > base {
+			continue
+		}
+		*stamp++
+		cur := *stamp
+		p, j := obj[i], i
+		for steps := 0; ; steps++ {
+			mark[j] = cur
+			p = p.parent
+			if p == nil {
+				break
+			}
+			j = int(p.id-1) / 2
+			if p.id%2 != 1 || j >= len(obj) || obj[j] != p || steps > len(obj) {
+				return i // foreign object or over the horizon: not a tree over our streams
+			}
+			if mark[j] == cur {
+				return j
+			}
+			if mark[j] > base {
+				break
+			}
+		}
+	}
+	if *stamp > 1<<30 {
+		for i := range mark {
+			mark[i] = 0
+		}
+		*stamp = 0
+	}
+	return -1
+}
+
+// cyc picks the walk: the plain step-bounded one for the small worlds, the O(n) one for deep trees.
+func (w *c36world) cyc() int {
+	if w.n <= c36maxN {
+		return w.cyclic()
+	}
+	return c36cyclicFast(w.obj, w.mark, &w.stamp)
 }
 
 func (w *c36world) enabled(o c36op) bool {
@@ -410,7 +459,7 @@ func (w *c36world) step(o c36op) (int, string) {
 	c36enter(cls)
 	w.apply(o)
 	c36leave()
-	if w.cyclic() >= 0 {
+	if w.cyc() >= 0 {
 		return cls, "cycle:" + c36className(o, cls)
 	}
 	return cls, ""
@@ -444,7 +493,7 @@ func c36runHistory(n int, hist []c36op, mode string) (code uint64, sig, detail s
 			for _, po := range hist[:k] {
 				pre.apply(po)
 			}
-			return 0, sg, fmt.Sprintf("after op %d (%s) on [%s] stream %d is its own ancestor: [%s]", k, o.str(n), pre.describe(), c36id(w.cyclic()), w.describe()), nil
+			return 0, sg, fmt.Sprintf("after op %d (%s) on [%s] stream %d is its own ancestor: [%s]", k, o.str(n), pre.describe(), c36id(w.cyc()), w.describe()), nil
 		}
 	}
 	c, ok := w.encode(true)
@@ -823,11 +872,13 @@ type c36fw struct {
 	hbuf    bytes.Buffer
 	henc    *hpack.Encoder
 	release chan struct{}
-	all     [c36maxN]*stream
+	all     []*stream
+	mark    []int32
+	stamp   int32
 }
 
 func c36newFrameWorld(n int) *c36fw {
-	fw := &c36fw{n: n, release: make(chan struct{})}
+	fw := &c36fw{n: n, release: make(chan struct{}), all: make([]*stream, n), mark: make([]int32, n)}
 	c := c36conn{}
 	srv := &Server{}
 	sc := &serverConn{
@@ -843,7 +894,7 @@ func c36newFrameWorld(n int) *c36fw {
 		wroteFrameCh:      make(chan frameWriteResult, 1),
 		bodyReadCh:        make(chan bodyReadMsg),
 		doneServing:       make(chan struct{}),
-		advMaxStreams:     100,
+		advMaxStreams:     srv.maxConcurrentStreams(nil), // 200, what a default server advertises
 		writeSched:        writeScheduler{maxFrameSize: initialMaxFrameSize},
 		initialWindowSize: initialWindowSize,
 		headerTableSize:   initialHeaderTableSize,
@@ -912,6 +963,9 @@ func (fw *c36fw) send(o c36op) error {
 }
 
 func (fw *c36fw) cyclic() int {
+	if fw.n > c36maxN {
+		return c36cyclicFast(fw.all, fw.mark, &fw.stamp)
+	}
 	for i := 0; i < fw.n; i++ {
 		p := fw.all[i]
 		for k := 0; k <= fw.n && p != nil; k++ {
